@@ -62,6 +62,8 @@ def install():
 
 
 def concrete_data(i, bid):
+    if bid == "A" and i == 1:
+        return {}  # an event without any data: nothing nested to copy — still must not be shared
     return {"title": "T%s%d" % (bid, i), "app": "a%d" % (i % 2), "url": "http://www.ex.org/p%d?q=1#f" % i}
 
 
